@@ -705,9 +705,8 @@ func c11Render(tokens []string, compact bool) string {
 				if (p == "<<" || p == "<" || p == ">") && (t[0] == '-' || t[0] == '&' || t[0] == '>' || t[0] == '<' || t[0] == '|' || t[0] == '(') {
 					glue = false
 				}
-				if len(t) > 0 && t[0] >= '0' && t[0] <= '9' && strings.ContainsAny(t[len(t)-1:], "<>&-|") {
-					glue = false // 2> must stay a separate token
-				}
+				// an io-number token ("2>") is glued to a preceding OPERATOR (")2>", ";2>", "|2>"): there the
+				// digits cannot merge with a word; after a word it is never glued (t is not an operator token)
 			}
 			if !glue {
 				sb.WriteByte(' ')
